@@ -11,7 +11,7 @@
 (*             replaced, and whatever it accepts can be written again and     *)
 (*             reads back equal (C19: re-serializing an accepted file).       *)
 EXTENDS ObjFormat
-CONSTANT MaxChunks
+CONSTANTS MaxChunks, Flips      \* Flips = FALSE: cut files only (the RP configuration prints each of them)
 
 VARIABLES mode, o, b, phase
 vars == <<mode, o, b, phase>>
@@ -61,7 +61,7 @@ Next ==
   \/ mode = "mal" /\ phase = "cut" /\ \E n \in 0..Len(b) : b' = SubSeq(b, 1, n) /\ phase' = "flip" /\ UNCHANGED <<mode, o>>
   \/ mode = "mal" /\ phase = "flip" /\
         \/ b' = b /\ phase' = "chk" /\ UNCHANGED <<mode, o>>
-        \/ \E i \in 1..Len(b), v \in ByteChoices : b' = [b EXCEPT ![i] = v] /\ phase' = "chk" /\ UNCHANGED <<mode, o>>
+        \/ Flips /\ \E i \in 1..Len(b), v \in ByteChoices : b' = [b EXCEPT ![i] = v] /\ phase' = "chk" /\ UNCHANGED <<mode, o>>
 Spec == Init /\ [][Next]_vars
 
 RoundTrip ==
@@ -77,6 +77,8 @@ Total ==
     /\ r.ok => \A lo \in Orders(DOMAIN r.obj.labels), ro \in Orders(DOMAIN r.obj.rel) :
                  LET w == BinWrite(r.obj, lo, ro)  r2 == BinRead(w) IN
                  r2.ok /\ View(r2.obj) = View(r.obj)
+\* RP: every cut file, for the harness to give to the real reader (`lc3v replay fmt`)
+EmitCut == (mode = "mal" /\ phase = "chk") => PrintT(<<"HIST", b>>)
 \* non-vacuity (run by hand with each as an INVARIANT: TLC must report a violation): the exploration contains
 \* accepted damaged files and rejected ones
 NoAcceptedDamaged == ~(mode = "mal" /\ phase = "chk" /\ BinRead(b).ok /\ Len(b) > 40 /\ BinRead(b).obj.dbg)
